@@ -360,6 +360,24 @@ def getitem(it, a, key):
     return v
 
 
+def getitem_view(it, a, key):
+    """a[key] as a view even when every index is an integer (0-d view), for in-place updates of single elements"""
+    k2 = expand_key(a, list(key)) if not any(isinstance(k, (Arr, list)) for k in key) else None
+    if k2 is not None and all(not isinstance(k, slice) and k is not None for k in k2):
+        idx = []
+        for k, dim in zip(k2, a.shape):
+            kk = k
+            if is_conc(k) and int(k) < 0:
+                kk = r_add(dim, int(k))
+            it.ctx.definedness(b_and(cmp(">=", kk, 0), cmp("<", kk, dim)), "index in bounds")
+            idx.append(kk)
+        return a.view([], lambda i, idx=idx: list(idx), lambda s, idx=idx: (b_and(*[cmp("==", p, q) for p, q in zip(s, idx)]), []))
+    v = getitem(it, a, key)
+    if not isinstance(v, Arr):
+        raise Unsupported("in-place update target")
+    return v
+
+
 def fancy_get(it, a, key):
     """integer-array indexing (copy).  Supported: every key an int Arr / IndexArr of one common shape,
     or a mix of scalars and such arrays (broadcast scalars)."""
@@ -782,6 +800,24 @@ def call_method(it, recv, name, args, kwargs):
             return sigma(it, [(0, d) for d in recv.shape_src], lambda idx: ite(ms(idx), f(idx), 0), "msum")
         raise Unsupported("method %s on a boolean-mask selection" % name)
     if isinstance(recv, list):
+        if name == "append" and getattr(it.ctx, "generic", None) is not None:
+            from . import loopsum
+            scope = it.ctx.generic
+            top = scope
+            while top.parent is not None:
+                top = top.parent
+            if id(recv) in getattr(top, "outer_lists", ()):
+                kv = [sp.k for sp in scope.vars()]
+                val = args[0]
+                if any(l is recv for (l, _, _) in getattr(top, "appends", [])):
+                    raise Unsupported("several appends to one list inside a loop summary")
+                if not hasattr(top, "appends"):
+                    top.appends = []
+                if scope is not top:
+                    top.append_spaces = scope.vars()
+                top.appends.append((recv, (lambda K, val=val, kv=kv: loopsum.subst_value(val, kv, K)), scope.guard()))
+                top.append_scope = scope
+                return None
         if name == "append":
             recv.append(args[0])
             return None
@@ -864,7 +900,21 @@ def arr_method(it, a, name, args, kwargs):
     if name == "all":
         raise Unsupported("ndarray.all on a symbolic array")
     if name == "var" or name == "std":
-        raise Unsupported("ndarray.%s" % name)
+        axis = args[0] if args else kwargs.get("axis")
+        if kwargs.get("ddof", 0) != 0:
+            raise Unsupported("var/std with ddof")
+        m = arr_method(it, a, "mean", [axis] if axis is not None else [], {})
+        if axis is None:
+            dev = map1(it, a, lambda x: s_abs2(s_sub(x, m)), "float")
+        else:
+            ax = norm_axis(axis, a.ndim)
+            ms = m.snapshot() if isinstance(m, Arr) else None
+            snap = a.snapshot()
+            dev = Arr(list(a.shape), lambda idx: s_abs2(s_sub(snap(idx), ms(list(idx[:ax]) + list(idx[ax + 1:])) if ms is not None else m)), "float")
+        v = arr_method(it, dev, "mean", [axis] if axis is not None else [], {})
+        if name == "var":
+            return v
+        return map1(it, v, lambda x: r_sqrt(x, it.ctx), "float") if isinstance(v, Arr) else r_sqrt(v, it.ctx)
     if name == "view":
         return BitView(a, args[0])
     if name == "fill":
@@ -1575,3 +1625,15 @@ EXT["numpy.fft.fft"] = _fft_call("fft", [-1])
 EXT["numpy.fft.ifft"] = _fft_call("ifft", [-1])
 EXT["numpy.fft.fft2"] = _fft_call("fft2", [-2, -1])
 EXT["numpy.fft.ifft2"] = _fft_call("ifft2", [-2, -1])
+
+
+@ext("numpy.fft.fftfreq")
+def _fftfreq(it, n, d=1):
+    n = as_dim(n)
+    it.ctx.definedness(cmp(">", n, 0), "fftfreq: n > 0")
+    half = it.floordiv(r_sub(n, 1), 2)
+
+    def f(idx):
+        k = idx[0]
+        return ite(cmp("<=", k, half), r_div(k, r_mul(n, d), it.ctx), r_div(r_sub(k, n), r_mul(n, d), it.ctx))
+    return Arr([n], f, "float")
